@@ -2,4 +2,4 @@ From Coq Require Extraction ExtrOcamlBasic.
 From Common Require Import Words.
 From Callback Require Import CallbackSpec CallbackModel.
 Extraction Language OCaml.
-Extraction "model.ml" anchor init step step_tr sp_init spec_step.
+Extraction "model.ml" anchor init step step_tr sp_init spec_step oldest.
